@@ -184,6 +184,15 @@ MUTANTS = [
       "    def get_writekey(self):\n        writekey = self._writekey\n        return writekey\n    def get_readkey(self):",
       None),
     # ---- benign
+    M("benign-avatar-refusal-via-local", WP,
+      "        return fail(Failure(UnauthorizedLogin()))\n",
+      "        refusal = fail(Failure(UnauthorizedLogin()))\n        return refusal\n", None),
+    M("benign-prohibited-write-uri-via-local", "src/allmydata/blacklist.py",
+      "        return self.wrapped_node.get_write_uri()\n",
+      "        rw_uri = self.wrapped_node.get_write_uri()\n        return rw_uri\n", None),
+    M("benign-timing-safe-via-local", HU,
+      "    return bool(tagged_hash(n, a) == tagged_hash(n, b))\n",
+      "    same = bool(tagged_hash(n, a) == tagged_hash(n, b))\n    return same\n", None),
     M("benign-realm-answer-via-local", WP,
       "            return (IResource, self._root, self._logout)\n",
       "            answer = (IResource, self._root, self._logout)\n            return answer\n", None),
